@@ -569,9 +569,12 @@ Definition check_C20 (v out : val) : bool :=
   end.
 
 (** * Correspondence relation: model output [m] against implementation output [i].
-    Item lists are compared up to order (the implementation lists them in hash
-    order); the saved file and the answers of [get_closest] are compared with
-    the model run on the iteration order the implementation reports. *)
+    [create]: exact — same status, same items up to list order (the implementation
+    lists them in hash order), same freq_sum.  Saved file: exactly [save] of SOME
+    order of the items with non-increasing frequency (the order among equal
+    frequencies is the hash order).  [load]: exact.  [get]: exact.  [get_closest]:
+    the answer must be a member of the tie set (minimal distance, maximal
+    frequency) of the loaded dictionary; which member is hash-order dependent. *)
 Definition agree_create (m i : val) : bool :=
   match m, i with
   | L [I 0%Z; mi; I mf], L [I 0%Z; ii; I jf] =>
@@ -586,6 +589,26 @@ Definition agree_lres (m i : val) : bool :=
     items_shape ii && entries_eqb (map swap_d (v_items mi)) (isort (map swap_d (v_items ii))) && (mf =? jf)%Z
   | _, _ => false
   end.
+(** the entries of a saved file in file order (no trimming, exactly two fields) *)
+Fixpoint file_entries (ls : list bytes) : option dict :=
+  match ls with
+  | [] => Some []
+  | l :: r =>
+    match split_on 9 [] l, file_entries r with
+    | [k; v], Some es => option_map (fun n => (k, n) :: es) (parse_usize v)
+    | _, _ => None
+    end
+  end.
+Fixpoint desc_freq (es : dict) : bool :=
+  match es with
+  | e1 :: ((e2 :: _) as r) => (snd e2 <=? snd e1) && desc_freq r
+  | _ => true
+  end.
+Definition agree_file (ifile : val) (items : dict) : bool :=
+  match file_entries (lines_of (v_bytes ifile)) with
+  | Some es => val_eqb ifile (bytes_v (flat_map save_line es)) && same_dict es items && desc_freq es
+  | None => false
+  end.
 Definition agree_C20 (v m i : val) : bool :=
   match m, i with
   | L [L mc; mr; ml; L ma], L [L ic; ir; il; L ia] =>
@@ -593,13 +616,14 @@ Definition agree_C20 (v m i : val) : bool :=
     && match mr, ir, ic with
        | L [], L [], _ => true
        | L [_; mlr], L [ifile; ilr], L [I 0%Z; ii; _] :: _ =>
-         val_eqb ifile (bytes_v (save (v_items ii))) && agree_lres mlr ilr
+         agree_file ifile (v_items ii) && agree_lres mlr ilr
        | _, _, _ => false
        end
     && agree_lres ml il
     && match il with
        | L [L [ii; _]] =>
-         all2b (fun q a => val_eqb a (answer_v (in_segs v) (v_items ii) q)) (in_queries v) ia
+         all2b (fun q a => val_eqb (v_nth 0 a) (opt_v n_v (get (fst (snd q)) (v_items ii)))
+                           && check_closest (in_segs v) (v_items ii) q a) (in_queries v) ia
        | _ => match ia with [] => true | _ => false end
        end
     && Nat.eqb (length ma) (length ia)
